@@ -255,7 +255,7 @@ pub fn enc_msgs_sorted(w: &mut W, ms: &[Message]) {
     }
 }
 
-fn dbg_field<'a>(dbg: &'a str, name: &str) -> &'a str {
+pub(crate) fn dbg_field<'a>(dbg: &'a str, name: &str) -> &'a str {
     let key = format!("{}: ", name);
     let i = dbg.find(&key).unwrap_or_else(|| panic!("Debug output lacks field {}: {}", name, dbg)) + key.len();
     let rest = &dbg[i..];
@@ -739,6 +739,8 @@ pub struct ReadyView {
     pub persisted_messages: Vec<Message>,
     pub must_sync: bool,
     pub read_states: Vec<(u64, Vec<u8>)>,
+    /// soft state handed out: (leader_id, role)
+    pub ss: Option<(u64, StateRole)>,
 }
 
 fn err_code(e: &raft::Error) -> u64 {
@@ -904,6 +906,7 @@ impl Driver {
                         persisted_messages: rd.persisted_messages().to_vec(),
                         must_sync: rd.must_sync(),
                         read_states: rd.read_states().iter().map(|r| (r.index, r.request_ctx.clone())).collect(),
+                        ss: rd.ss().map(|s| (s.leader_id, s.raft_state)),
                     });
                     *last_rd = Some(rd);
                 })
